@@ -1481,6 +1481,10 @@ def save_scenes_image_sync(
     add_to_pool = binformat.find_or_insert(pool, lambda x: x)
     deferred = binformat.DeferredWrites(file)
 
+    # The entry CRCs must be sorted, since the game uses a binary search. Do this first, so the
+    # string pool is also filled in an order that does not depend on how the entries were passed in.
+    scene_list.sort(key=lambda entry: entry.checksum)
+
     # Now, go through every scene, writing their data so our pool is filled.
     entry_to_data: dict[Entry, bytes] = {}
     for entry in scene_list:
@@ -1493,9 +1497,6 @@ def save_scenes_image_sync(
         else:
             # Parse if required, then export.
             entry_to_data[entry] = entry.data.export_binary(add_to_pool)
-    # The entry CRCs must be sorted, since the game uses a binary search.
-    scene_list.sort(key=lambda entry: entry.checksum)
-
     # Finally we can start writing to the file.
     file.write(struct.pack('<4siii', b'VSIF', version, len(scene_list), len(pool)))
     deferred.defer('scene_offset', '<i', write=True)
